@@ -57,7 +57,7 @@ def harness():
 
 ARCH_ORDER = ["json", "xml", "msgpack", "csv"]
 CHUNK = 20000
-STREAMS = ["sstream", "short3"]             # std::istream overload of LoadObject (vh::MakeStream kinds)
+STREAMS = ["sstream", "short3", "file"]     # std::istream overload of LoadObject (vh::MakeStream kinds) and LoadObjectFromFile()
 MEDIA = ["mem"] + STREAMS
 
 
@@ -68,7 +68,7 @@ def replay_scenarios(scens, tag, withdoc=False, media=None):
     runs = []
     for i, s in enumerate(scens):
         archs = [a for a in ARCH_ORDER if a in s["archs"]]
-        # memory + one std::istream kind per scenario (alternating); a replay names its medium
+        # memory + one other entry point per scenario (stringstream / short-read stream / file, alternating); a replay names its medium
         media = explicit_media or ["mem", STREAMS[i % len(STREAMS)]]
         rows.append({"id": "%s%d" % (tag, i), "place": s["place"], "nel": s["nel"], "cap": s["cap"], "fields": s["fields"], "archs": archs, "media": media, "pol": s.get("pol", "skip")})
         runs += [(i, a, m) for a in archs for m in media]
@@ -282,7 +282,8 @@ def run_check(tier):
         "abstract rules spec/Validation.tla (A); TLC checks ExceptionIffFailure / ExactlyFailingFields / ExactlyFailingRules / "
         "PassingFieldsLoaded / BuiltinSemantics / MFixedRefinesA / MUnchangedIsADev in every state (invariant Check)",
         "paths compared with array positions replaced by '*' (digits; XML item element 'object'); equal normalised paths merged",
-        "every scenario is loaded from memory and through std::istream (stringstream; stream buffer delivering 3 bytes per read) on every applicable archive",
+        "every scenario is loaded from memory and through one more entry point, alternating: std::istream (stringstream; stream buffer "
+        "delivering 3 bytes per read) or LoadObjectFromFile(), on every applicable archive",
         "Email / PhoneNumber bound only on the documented examples (README, validators_tests.cpp); the default PhoneNumber texts per "
         "failure reason and their precedence are transcribed from validators.h",
         "field types: int, string, optional<int>, vector<int>, vector<string>, map<string,int>, nested object; MismatchedTypesPolicy Skip and "
